@@ -270,9 +270,42 @@ func (h *harness) oneMPD(a *lib.TLAsset, cfg lib.TLCfg, now int64) {
 	}
 	atoImpl := atoMSOfImpl(cfg)
 	tsbdMS := mo.TSBDms
+	multi := len(mo.Periods) > 1
 	for ai, ao := range mo.Periods[0].AS {
 		if len(ao.RepIDs) == 0 || ao.Media == "" {
 			continue
+		}
+		if multi {
+			// periods_N: the timelines of the Periods (absolute media times, one presentationTimeOffset per Period)
+			// joined in Period order are the timeline the MPD declares for this adaptation set
+			if !ao.HasTimeline {
+				continue
+			}
+			joined := *ao
+			joined.Timeline = nil
+			okAll := true
+			for _, p := range mo.Periods {
+				if ai >= len(p.AS) || len(p.AS[ai].RepIDs) == 0 || p.AS[ai].RepIDs[0] != ao.RepIDs[0] {
+					okAll = false
+					break
+				}
+				joined.Timeline = append(joined.Timeline, p.AS[ai].Timeline...)
+			}
+			if !okAll {
+				h.fail(mid, base, "periods:adaptation-sets-differ", fmt.Sprintf("%s: the Periods do not carry the same adaptation sets in the same order", url))
+				continue
+			}
+			if len(joined.Timeline) == 0 {
+				continue // judged by timeline-empty of the single-period twin
+			}
+			// numbers: the first Period that lists something gives the number of the first listed segment
+			for _, p := range mo.Periods {
+				if len(p.AS[ai].Timeline) > 0 {
+					joined.HasStartNr, joined.StartNumber = p.AS[ai].HasStartNr, p.AS[ai].StartNumber
+					break
+				}
+			}
+			ao = &joined
 		}
 		repID := ao.RepIDs[0]
 		r := a.Rep(repID)
@@ -303,6 +336,9 @@ func (h *harness) timelineAS(id string, in c02in, a *lib.TLAsset, cfg lib.TLCfg,
 		}
 	}
 	own := r != nil && r.Kind != "audio" && r.Kind != "image" // has its own segment table and timeline
+	if strings.Contains(cfg.Extra, "periods_") {
+		own = false // joined view of a multi-period MPD: judged by the oracle (the split itself is C06's model)
+	}
 	ref := a.Ref()
 	if own {
 		// correspondence case for the model of generateTimelineEntries
@@ -651,6 +687,11 @@ func run(c *lib.Ctx) error {
 				// every asset (every video timescale) with generated subtitles under both timeline modes
 				cfg = lib.TLCfg{Snr: -1, Tsbd: -1, Mode: []string{"tlt", "tlnr"}[k-3], Extra: []string{"timesubsstpp_en,sv/", "timesubswvtt_en/", "timesubsstpp_en,pt-BR/", "timesubswvtt_zh-Hans/"}[(k+len(jobs))%4]}
 				pairs.Add("mpd", segMS, cfg)
+			}
+			if k == 6 && 60000%segMS == 0 && a.LoopMS%1000 == 0 {
+				// periods_60 under both timeline modes: the joined timelines of the Periods are what the MPD declares
+				// (audio segments straddle every second Period boundary)
+				cfg = lib.TLCfg{StartS: []int64{0, 30}[len(jobs)%2], Snr: -1, Tsbd: []int64{-1, 120}[(len(jobs)/2)%2], Mode: []string{"tlt", "tlnr"}[len(jobs)%2], Extra: "periods_60/"}
 			}
 			if cfg.AtoMS > 0 {
 				// a finite offset switches the server to paced chunked delivery of the newest segments
